@@ -99,10 +99,43 @@ func checkC03(c *km.Ctx) {
 			if !ok {
 				return
 			}
-			base, fld, ok2 := km.FieldOfLoad(km.Unwrap(add.Common().Args[0]))
 			d, isC := km.ConstInt(add.Common().Args[1])
-			if ok2 && fld == "IssuedAt" && isAuthInfo(base) && isC && d > 0 && d <= day {
+			if !isC || d <= 0 || d > day {
+				return
+			}
+			issued := km.Unwrap(add.Common().Args[0])
+			isIssuedAt := func(v ssa.Value) bool {
+				base, fld, ok2 := km.FieldOfLoad(km.Unwrap(v))
+				return ok2 && fld == "IssuedAt" && isAuthInfo(base)
+			}
+			if isIssuedAt(issued) {
 				found = cl
+				return
+			}
+			// the instant handed in as a parameter: every caller passes authInfo.IssuedAt
+			if p, isP := issued.(*ssa.Parameter); isP {
+				idx := -1
+				for i, q := range fn.Params {
+					if q == p {
+						idx = i
+					}
+				}
+				sites := c.G.Callers[fn]
+				all := idx >= 0 && len(sites) > 0
+				for _, cs := range sites {
+					ci, ok := cs.Instr.(ssa.CallInstruction)
+					if !ok {
+						all = false
+						break
+					}
+					a := km.CallArgs(ci.Common())
+					if idx >= len(a) || !isIssuedAt(a[idx]) {
+						all = false
+					}
+				}
+				if all {
+					found = cl
+				}
 			}
 		})
 		ageMemo[fn] = found
